@@ -119,6 +119,11 @@ type GenCfg struct {
 }
 
 func genAssets(r *hx.Rand, cfg GenCfg) *Assets {
+	if r.Chance(1, 4) {
+		a := genChain(r, cfg)
+		a.Opts = genOptions(r, cfg)
+		return a
+	}
 	a := &Assets{}
 	nflows := r.Range(1, 4)
 	sizes := make([]int, nflows)
@@ -144,6 +149,93 @@ func genAssets(r *hx.Rand, cfg GenCfg) *Assets {
 		}
 	}
 	a.Opts = genOptions(r, cfg)
+	return a
+}
+
+// genChain builds deep run hierarchies: 3-6 flows, each entering the next from a small node (so that
+// steps are reached through enter_flow rather than through exits), terminal or not, and a last flow
+// that waits, fails, enters itself, closes a cycle or simply ends.  Parents continue after the child
+// on a second node (a wait, a message or nothing).
+func genChain(r *hx.Rand, cfg GenCfg) *Assets {
+	a := &Assets{}
+	depth := r.Range(3, 6)
+	for i := 1; i <= depth; i++ {
+		a.Flows = append(a.Flows, &Flow{ID: i})
+	}
+	waitRouter := func(n *Node, timeout bool, dest int) {
+		n.Exits = []Exit{{ID: n.ID*10 + 1, Dest: dest}, {ID: n.ID*10 + 2, Dest: 0}}
+		rt := &Router{Default: 0, Cats: []Category{{Name: "C0", Exit: n.ID*10 + 1}, {Name: "C1", Exit: n.ID*10 + 2}},
+			Cases: []Case{{Arg: "zz", Cat: 1}}, Wait: &Wait{}}
+		if timeout {
+			rt.Cats = append(rt.Cats, Category{Name: "Timeout", Exit: n.ID*10 + 2})
+			rt.Wait.HasTimeout, rt.Wait.Seconds, rt.Wait.TimeoutCat = true, 60, 2
+		}
+		if r.Bool() {
+			rt.Result = hx.Pick(r, resultNames)
+		}
+		n.Router = rt
+	}
+	for i, f := range a.Flows {
+		first := &Node{ID: f.ID*100 + 1}
+		f.Nodes = append(f.Nodes, first)
+		if r.Chance(1, 4) {
+			first.Actions = append(first.Actions, Action{Kind: "send_msg", Text: genText(r)})
+		}
+		last := i == len(a.Flows)-1
+		if !last {
+			first.Actions = append(first.Actions, Action{Kind: "enter_flow", Flow: f.ID + 1, Terminal: r.Chance(1, 5)})
+			// what the parent does when the child returns
+			switch r.Intn(5) {
+			case 0: // nothing: the run completes
+				first.Exits = []Exit{{ID: first.ID*10 + 1}}
+			case 1: // a second node that waits
+				second := &Node{ID: f.ID*100 + 2}
+				waitRouter(second, r.Bool(), 0)
+				f.Nodes = append(f.Nodes, second)
+				first.Exits = []Exit{{ID: first.ID*10 + 1, Dest: second.ID}}
+			case 2: // a second node that sends a message and saves a result
+				second := &Node{ID: f.ID*100 + 2, Actions: []Action{{Kind: "send_msg", Text: genText(r)},
+					{Kind: "set_run_result", Name: hx.Pick(r, resultNames), Text: genText(r)}}}
+				second.Exits = []Exit{{ID: second.ID*10 + 1}}
+				f.Nodes = append(f.Nodes, second)
+				first.Exits = []Exit{{ID: first.ID*10 + 1, Dest: second.ID}}
+			case 3: // back to itself: the child is entered again and again (until a limit or a wait)
+				first.Exits = []Exit{{ID: first.ID*10 + 1, Dest: first.ID}}
+			default: // a router on the entering node itself (routes when the child returns)
+				first.Exits = []Exit{{ID: first.ID*10 + 1}, {ID: first.ID*10 + 2}}
+				first.Router = &Router{Default: hx.Pick(r, []int{-1, 0, 0}), Cats: []Category{{Name: "C0", Exit: first.ID*10 + 1}, {Name: "C1", Exit: first.ID*10 + 2}},
+					Cases: []Case{{Arg: hx.Pick(r, words), Cat: 1}}}
+			}
+			continue
+		}
+		// the deepest flow
+		switch r.Intn(8) {
+		case 0, 1: // waits
+			waitRouter(first, r.Bool(), 0)
+		case 2: // waits, then loops on itself
+			waitRouter(first, r.Bool(), first.ID)
+		case 3: // fails: enters a flow that does not exist
+			first.Actions = append(first.Actions, Action{Kind: "enter_flow", Flow: 9})
+			first.Exits = []Exit{{ID: first.ID*10 + 1}}
+		case 4: // fails: the router has no default and no case matches
+			first.Exits = []Exit{{ID: first.ID*10 + 1}}
+			first.Router = &Router{Default: -1, Cats: []Category{{Name: "C0", Exit: first.ID*10 + 1}}, Cases: []Case{{Arg: "nomatch", Cat: 0}}}
+		case 5: // enters itself
+			first.Actions = append(first.Actions, Action{Kind: "enter_flow", Flow: f.ID, Terminal: r.Chance(1, 3)})
+			first.Exits = []Exit{{ID: first.ID*10 + 1}}
+		case 6: // closes the cycle
+			first.Actions = append(first.Actions, Action{Kind: "enter_flow", Flow: 1, Terminal: r.Chance(1, 3)})
+			first.Exits = []Exit{{ID: first.ID*10 + 1}}
+		default: // ends; optionally a wait first on a second node
+			first.Exits = []Exit{{ID: first.ID*10 + 1}}
+			if r.Bool() {
+				second := &Node{ID: f.ID*100 + 2}
+				waitRouter(second, r.Bool(), 0)
+				f.Nodes = append(f.Nodes, second)
+				first.Exits[0].Dest = second.ID
+			}
+		}
+	}
 	return a
 }
 
